@@ -386,6 +386,10 @@ func (fx *FX) applyContract(fr *frame, st *State, c *Contract, name string, call
 		}
 		for _, cl := range c.TrustedEns {
 			fx.assume(st.reach, fx.evalBool(env, cl.Expr))
+			fx.usedAssumed["trusted-ensures of "+c.Kind+" "+c.Name+lbl(cl)+": "+cl.Text] = true
+		}
+		if c.Kind == "extern" || c.Trusted {
+			fx.usedAssumed[c.Kind+" "+c.Name+" (whole contract assumed)"] = true
 		}
 	}
 	fx.assumeClosureInvariants(fr, st, args)
